@@ -335,6 +335,42 @@ def run(ctx):
             ROT_NEAR[0] = 0
         ctx.bucket("allow_ps_true" if allow else "allow_ps_false")
         case = {"qubits": n, "gates": log, "allow_post_selection": allow, "qiskit_circuit_presented_as": presented}
+        if rng.random() < 0.15:
+            # first a circuit the converter has to refuse half-way: supported gates (with a long-range two-qubit gate last)
+            # followed by an instruction it does not support; what it had begun may leave no trace in what comes next
+            nr = int(rng.integers(3, 6))
+            bad = QuantumCircuit(nr, nr) if rng.random() < 0.5 else QuantumCircuit(nr)
+            blog: list = []
+            for _ in range(int(rng.integers(0, 3))):
+                add_random_gate(bad, rng, nr, blog, allow3=False, max_multi=1, counter=[0])
+            a_, b_ = (0, nr - 1) if rng.random() < 0.5 else (nr - 1, 0)
+            getattr(bad, str(rng.choice(["cx", "cz"])))(a_, b_)
+            kind_bad = str(rng.choice(["barrier", "measure", "reset", "u", "crz", "delay"]))
+            if kind_bad == "barrier":
+                bad.barrier()
+            elif kind_bad == "measure":
+                bad.measure_all() if bad.num_clbits == 0 else bad.measure(0, 0)
+            elif kind_bad == "reset":
+                bad.reset(0)
+            elif kind_bad == "u":
+                bad.u(0.3, 0.2, 0.1, int(rng.integers(nr)))
+            elif kind_bad == "crz":
+                bad.crz(0.4, 0, 1)
+            else:
+                bad.delay(10, 0)
+            if rng.random() < 0.5:
+                bad.h(0)
+            try:
+                with conversion_watchdog(10):
+                    conv(bad, allow_post_selection=allow)
+                ctx.count("unsupported_instruction_converted:" + kind_bad)
+            except ConversionTimeout:
+                ctx.count("conversion_did_not_return_within_10s")
+            except Exception as e:  # noqa: BLE001
+                ctx.bucket("conversion_after_one_refused_half_way")
+                ctx.count("refused_half_way:" + kind_bad + ":" + type(e).__name__)
+                case["preceded_by_refused_circuit"] = blog + [[kind_bad]]
+            circmon.drain()
         try:
             with conversion_watchdog(10):
                 circuit, rules = conv(qc, allow_post_selection=allow)
